@@ -67,6 +67,7 @@ type propInfo struct {
 	target    uint64
 	votingEnd time.Time
 	done      bool
+	dup       string // MsgTransitionGroup naming one account twice: "" | same-string | upper-case
 }
 
 type createdSig struct{ sid, gid uint64 }
@@ -326,7 +327,25 @@ func (b *blockBuilder) add(signer *sim.Account, meta *txMeta, msgs ...sdk.Msg) {
 
 func (b *blockBuilder) inapplicable(k string) { b.w.v.Count("inapplicable_"+k, 1) }
 
-func (b *blockBuilder) propose(kind string, msg sdk.Msg, execTime time.Time, target uint64) {
+func (b *blockBuilder) propose(kind string, msg sdk.Msg, execTime time.Time, target uint64) *propInfo {
+	w := b.w
+	val := w.ch.Vals[0]
+	sp, err := govv1.NewMsgSubmitProposal([]sdk.Msg{msg}, sdk.NewCoins(sdk.NewInt64Coin("uband", 10)), val.Addr.String(), "", "t", "s", false)
+	if err != nil {
+		w.v.Failf("harness", "NewMsgSubmitProposal: %v", err)
+		return nil
+	}
+	p := &propInfo{pid: w.nextPID, kind: kind, execTime: execTime, target: target, votingEnd: b.T.Add(time.Duration(w.c.GovV) * time.Second)}
+	w.nextPID++
+	w.props = append(w.props, p)
+	b.add(val, &txMeta{kind: "prop", prop: p}, sp)
+	b.add(val, &txMeta{kind: "vote", prop: p}, govv1.NewMsgVote(val.Addr, p.pid, govv1.OptionYes, ""))
+	return p
+}
+
+// proposeMalformed submits a proposal whose message does not pass its own stateless validation: governance refuses the
+// submission, no proposal id is used up and there is nothing to vote on.
+func (b *blockBuilder) proposeMalformed(msg sdk.Msg, what string) {
 	w := b.w
 	val := w.ch.Vals[0]
 	sp, err := govv1.NewMsgSubmitProposal([]sdk.Msg{msg}, sdk.NewCoins(sdk.NewInt64Coin("uband", 10)), val.Addr.String(), "", "t", "s", false)
@@ -334,11 +353,7 @@ func (b *blockBuilder) propose(kind string, msg sdk.Msg, execTime time.Time, tar
 		w.v.Failf("harness", "NewMsgSubmitProposal: %v", err)
 		return
 	}
-	p := &propInfo{pid: w.nextPID, kind: kind, execTime: execTime, target: target, votingEnd: b.T.Add(time.Duration(w.c.GovV) * time.Second)}
-	w.nextPID++
-	w.props = append(w.props, p)
-	b.add(val, &txMeta{kind: "prop", prop: p}, sp)
-	b.add(val, &txMeta{kind: "vote", prop: p}, govv1.NewMsgVote(val.Addr, p.pid, govv1.OptionYes, ""))
+	b.add(val, &txMeta{kind: "prop-malformed", what: what}, sp)
 }
 
 func (b *blockBuilder) build(o op) {
@@ -360,9 +375,29 @@ func (b *blockBuilder) build(o op) {
 		if a < 0 {
 			a = -a
 		}
+		// one account named twice: D 1/2 the identical string (last / first), D 3/4 the ALL-UPPER-CASE bech32 spelling of
+		// the same address (a different string, the same account)
+		dup := ""
+		switch o.D {
+		case 1:
+			addrs, dup = append(addrs, addrs[0]), "same-string"
+		case 2:
+			addrs, dup = append([]string{addrs[len(addrs)-1]}, addrs...), "same-string"
+		case 3:
+			addrs, dup = append(addrs, strings.ToUpper(addrs[0])), "upper-case"
+		case 4:
+			addrs, dup = append([]string{strings.ToUpper(addrs[len(addrs)-1])}, addrs...), "upper-case"
+		}
 		thr := uint64(1 + a%len(addrs))
 		execTime := b.T.Add(time.Duration(w.c.GovV+o.B) * time.Second)
-		b.propose("trans", bandtsstypes.NewMsgTransitionGroup(addrs, thr, execTime, sim.GovAuthority()), execTime, 0)
+		msg := bandtsstypes.NewMsgTransitionGroup(addrs, thr, execTime, sim.GovAuthority())
+		if dup == "same-string" {
+			b.proposeMalformed(msg, "propT-duplicate-member:same-string")
+			return
+		}
+		if p := b.propose("trans", msg, execTime, 0); p != nil {
+			p.dup = dup
+		}
 	case "propF":
 		ids := w.groupIDs()
 		// prefer ACTIVE groups other than the current one; selector values >= 100 pick any group (negative cases)
@@ -484,7 +519,7 @@ func (b *blockBuilder) build(o op) {
 					continue
 				}
 				var dm *dkgMember
-				dm, msg, err = dkgRound1(seed, gr, tss.GroupID(gid), addr)
+				dm, msg, err = dkgRound1(seed, gr, tss.GroupID(gid), addr, mid)
 				if err == nil {
 					dm.stopped = g.dkg[i].stopped
 					g.dkg[i] = dm
@@ -866,7 +901,33 @@ func (w *world) onProposal(pid uint64, result string, T time.Time, h int64) {
 	}
 	var cls string
 	if p.kind == "trans" {
-		cls = w.m.proposalTransition(passed, newGroup, p.execTime, minExec, maxExec, h, w.takeOut())
+		if p.dup != "" {
+			w.class("propT-duplicate-member:" + p.dup)
+			w.v.Count("propT_duplicate_member_"+strings.ReplaceAll(p.dup, "-", "_"), 1)
+			if w.m.tr == nil && !p.execTime.Before(minExec) && !p.execTime.After(maxExec) {
+				w.class("propT-duplicate-member:" + p.dup + ":decisive") // nothing else is wrong with the proposal
+			}
+			w.class(fmt.Sprintf("propT-duplicate-member:current-group=%v", w.m.cur != 0))
+		}
+		// bandtss members are keyed by address: a group in which one account holds two member ids cannot be represented in
+		// the member list the statement talks about (and its threshold counts one party twice)
+		if g := w.grps[newGroup]; passed && g != nil {
+			seen := map[string]int{}
+			for i, a := range g.members {
+				if j, dupl := seen[a]; dupl {
+					w.class("duplicate-member-group-created")
+					w.v.Count("duplicate_member_groups", 1)
+					if pbt.As("C18") == "C18" {
+						w.v.Failf("C18/duplicate-member-group", "MsgTransitionGroup accepted at height %d created incoming group %d in which %s holds member ids %d and %d (members %v)", h, newGroup, a, j+1, i+1, g.members)
+						return
+					}
+					// donor for another property's engine-level check: keep driving the history
+					break
+				}
+				seen[a] = i
+			}
+		}
+		cls = w.m.proposalTransition(passed, newGroup, p.dup != "", p.execTime, minExec, maxExec, h, w.takeOut())
 	} else {
 		// what kind of group does the forced transition name, at the moment governance executes it
 		kind := "nonexistent"
@@ -1077,6 +1138,13 @@ func (w *world) observe(metas []*txMeta, res *sim.BlockResult) {
 			if !ok {
 				w.v.Failf("harness", "gov %s tx failed: %s", meta.kind, tr.Log)
 			}
+		case "prop-malformed":
+			// (the bookkeeping of proposal ids relies on the refusal)
+			if ok {
+				w.v.Failf("harness", "governance accepted the submission of a proposal whose message fails its stateless validation (%s)", meta.what)
+			}
+			w.class(meta.what)
+			w.v.Count(strings.ReplaceAll(strings.ReplaceAll(meta.what, "-", "_"), ":", "_"), 1)
 		case "dkg", "complain":
 			if !ok {
 				w.v.Count("dkg_tx_rejected", 1)
